@@ -141,3 +141,29 @@ Section RunLemmas.
     apply in_or_app. now left.
   Qed.
 End RunLemmas.
+
+(* ------------------------------------------------------------ dispatcher *)
+Lemma dispatch_app a b : dispatch_calls (a ++ b) = dispatch_calls a ++ dispatch_calls b.
+Proof. unfold dispatch_calls. now rewrite filter_app, map_app. Qed.
+
+Lemma dispatch_in ls l : In l (dispatch_calls ls) <-> In (true, l) ls.
+Proof.
+  unfold dispatch_calls. rewrite in_map_iff. split.
+  - intros ([b l'] & E & H). simpl in E. subst l'. apply filter_In in H as [H1 H2]. simpl in H2. now subst b.
+  - intro H. exists (true, l). split; [reflexivity|]. apply filter_In. now split.
+Qed.
+
+Lemma dispatch_rejecting a l b : dispatch_calls (a ++ (false, l) :: b) = dispatch_calls (a ++ b).
+Proof. rewrite !dispatch_app. reflexivity. Qed.
+
+Lemma dispatch_accepting a l b :
+  dispatch_calls (a ++ (true, l) :: b) = dispatch_calls a ++ l :: dispatch_calls b.
+Proof. rewrite dispatch_app. reflexivity. Qed.
+
+Lemma dispatch_nodup ls : NoDup (map snd ls) -> NoDup (dispatch_calls ls).
+Proof.
+  unfold dispatch_calls. induction ls as [|[b l] t IH]; simpl; intro N; [constructor|].
+  inversion N; subst. destruct b; simpl; [|auto]. constructor; [|auto].
+  intro H. apply H1. apply in_map_iff in H as (x & E & Hx). apply filter_In in Hx as [Hx _].
+  apply in_map_iff. eauto.
+Qed.
